@@ -26,8 +26,10 @@ import Blots.Model.Json
   a character that is not one of those.
 
   Text level (third part): `Blots.ExprPeg` (Model/ExprPeg.lean) is a character-level PEG model
-  of the grammar rule `expression` for a FRAGMENT — terms `conditional | lambda | list | bool | null |
-  identifier | number (ASCII digits) | nested_expression` (a lambda body by the rule
+  of the grammar rule `expression` for a FRAGMENT — terms `conditional | do_block | lambda | list |
+  record | bool | string | null | identifier | number (ASCII digits) | nested_expression` (a
+  do-block by the rules `do_block`, `do_statement`, `return_statement`, its comments read and
+  dropped; a lambda body by the rule
   `lambda_expression`, which has no `via` / `into` / `where` at its top level), prefix `-` `!` `not`, all four postfix forms (`!`,
   index `access`, `call_list` with spread arguments and the optional trailing comma, field
   `dot_access`), all 26 binary operators through `infix_usage`, each with the layout the
@@ -38,8 +40,11 @@ import Blots.Model.Json
   is the one `exprToSource` writes.  `Frag t`: `t` is built from binary operators, prefix `-`
   / `!`, postfix `!`, calls `f(a, ...b)`, index `e[i]`, field `e.name` (an identifier that is
   not a reserved word), list literals `[a, ...b]` without comments, lambdas `(x, y?, ...r) =>
-  body` (argument names that are identifiers), conditionals `if c then a else b`, over atoms (non-reserved identifiers, built-in names, `true false
-  null`, integers 0 ≤ n < 10^15).
+  body` (argument names that are identifiers), conditionals `if c then a else b`, string literals
+  that do not contain both kinds of quote, record literals without comments, do-blocks `do { s₁
+  … return e }` without comments whose statements are fragment expressions with a leftmost name
+  other than `via` / `into` / `where` (`do_block_in_fragment_iff`), over atoms (non-reserved
+  identifiers, built-in names, `true false null`, integers 0 ≤ n < 10^15).
 -/
 namespace Blots.C10
 open Blots.PrattRT
@@ -388,7 +393,11 @@ theorem text_roundtrip (t : Expr) (h : Frag t) : parseText (exprToSource t) = so
     parameter may go; a string literal in either quote character that does not occur in it; in
     a record the layout of a list, blanks only in front of a colon and inside the brackets of a
     computed key, anything behind the colon, and a static key bare when it is an identifier or
-    as a string literal): the grammar yields the same items, and the same tree. -/
+    as a string literal; in a do-block at least one blank or line break between `do` and `{`,
+    anything behind `{` and in front of `}`, between two statements and in front of `return`
+    either blanks, one `;` and anything, or any layout with a line break in it, and at least one
+    blank (no line break) behind `return`): the grammar yields the same items, and the same
+    tree. -/
 theorem layout_insensitive (t : Expr) (h : Frag t) (c : CST) (hr : Relayout t c) :
     (∀ fuel, fuelFor c.text ≤ fuel → exprItems fuel c.text = some (items t, [])) ∧
     parseText (String.ofList c.text) = some t := by
@@ -836,6 +845,106 @@ example : ¬ Frag (.record [.mk ["// c"] (.static "a") one none]) ∧
     Frag (.record []) ∧ Frag (.record [en (.static "if") one]) := by decide +kernel
 example : exprToSource (.record [en (.static "a\"b'") one]) = "{[(\"a\" + '\"' + \"b'\")]: 1}" ∧
     reads "{[(\"a\" + '\"' + \"b'\")]: 1}" = some "{[\"a\" + '\"' + \"b'\"]: 1}" := by decide +kernel
+
+/-! #### do-blocks -/
+
+/-- WHICH DO-BLOCKS ARE IN THE FRAGMENT: statements and the returned expression in the fragment,
+    no comments, and no statement whose leftmost name is `via` / `into` / `where` (`stmtHeadOk`:
+    a parenthesised operand or a prefix operator shields the name).  Such a statement IS printed
+    safely — in parentheses, C07 `statement_start_protected` — but the formatter's layouts of it
+    differ in their parentheses (`(via + b)` on one line, `via` ⏎ `+ b` on two), so it is left
+    out of the text-level theorems rather than described by a width-dependent syntax tree.
+    Assignments as statements belong to the statement level, which the model does not cover. -/
+theorem do_block_in_fragment_iff (ss : List Item) (lead : List String) (e : Expr)
+    (tr : Option String) :
+    Frag (.doBlock ss (.mk lead e tr)) ↔
+      (∀ s ∈ ss, ∃ e', s = .mk [] e' none ∧ Frag e' ∧ stmtHeadOk e' = true) ∧
+        lead = [] ∧ tr = none ∧ Frag e := by
+  have hs : ∀ l : List Item, fragStmts l = true ↔
+      ∀ s ∈ l, ∃ e', s = .mk [] e' none ∧ Frag e' ∧ stmtHeadOk e' = true := by
+    intro l
+    induction l with
+    | nil => simp [fragStmts]
+    | cons i rest ih =>
+      obtain ⟨l1, e1, t1⟩ := i
+      simp only [fragStmts, Bool.and_eq_true, ih, List.mem_cons, forall_eq_or_imp, entPlain,
+        List.isEmpty_iff, Option.isNone_iff_eq_none, Item.mk.injEq, Frag, frag]
+      constructor
+      · rintro ⟨⟨⟨rfl, rfl⟩, h1, h2⟩, h3⟩
+        exact ⟨⟨e1, ⟨rfl, rfl, rfl⟩, h1, h2⟩, h3⟩
+      · rintro ⟨⟨e', ⟨rfl, rfl, rfl⟩, h1, h2⟩, h3⟩
+        exact ⟨⟨⟨rfl, rfl⟩, h1, h2⟩, h3⟩
+  unfold Frag
+  rw [frag_doBlock_iff]
+  simp only [Bool.and_eq_true, hs, entPlain, List.isEmpty_iff, Option.isNone_iff_eq_none, Frag]
+  constructor
+  · rintro ⟨h1, ⟨h2, h3⟩, h4⟩
+    exact ⟨h1, h2, h3, h4⟩
+  · rintro ⟨h1, h2, h3, h4⟩
+    exact ⟨h1, ⟨h2, h3⟩, h4⟩
+
+private abbrev st (e : Expr) : Item := .mk [] e none
+/-- `(x) => do {⏎  f(x)⏎  (-x)⏎  return x + 1⏎}` : the printer writes every statement on its own
+    line and parenthesises one that starts with `-` (it would continue the line before it) -/
+private abbrev u16 : Expr :=
+  .lambda [.req "x"] (.doBlock [st (.call xf [xx]), st (.un .negate xx)] (st (.bin .add xx one)))
+example : Frag u16 := by decide +kernel
+example : exprToSource u16 = "(x) => do {\n  f(x)\n  (-x)\n  return x + 1\n}" := by decide +kernel
+example : parseText (exprToSource u16) = some u16 := text_roundtrip u16 (by decide +kernel)
+example : items u16 = [.prim u16] := by rfl
+example : reads "(x) => do {\n  f(x)\n  (-x)\n  return x + 1\n}" =
+    some "(x) => do {\n  f(x)\n  (-x)\n  return x + 1\n}" := by decide +kernel
+
+/-- a re-layout: a line break between `do` and `{`, nothing behind `{`, `;` (blanks in front of
+    it, anything behind it) or any layout with a line break between statements, a tab behind
+    `return`, a blank in front of `}`: `x=>do⏎{f(x) ;⇥(-x)⏎⏎ return⇥x+1 }` -/
+private abbrev c16 : CST :=
+  .lambda (.bare (.req "x")) [] []
+    (.doB [.lf] []
+      (.cons (.call (.atom xf) [] (.last false (.atom xx)) (.plain [])) (.semi [.sp] [.tab])
+        (.cons (.paren [] (.un .negate (.atom xx)) []) (.line [.lf, .lf, .sp]) .nil))
+      [.tab] (.bin .add (.atom xx) [] [] (.atom one)) [.sp])
+example : String.ofList c16.text = "x=>do\n{f(x) ;\t(-x)\n\n return\tx+1 }" := by decide +kernel
+example : Relayout u16 c16 := by
+  refine ⟨by rfl, ?_⟩
+  simp only [CST.LayoutOk, CST.StmtsLayoutOk, CST.ArgsLayoutOk]
+  decide
+example : parseText (String.ofList c16.text) = some u16 :=
+  (layout_insensitive u16 (by decide +kernel) c16 (by
+    refine ⟨by rfl, ?_⟩
+    simp only [CST.LayoutOk, CST.StmtsLayoutOk, CST.ArgsLayoutOk]
+    decide)).2
+/-- A LINE BREAK IS NOT `;`: behind `;` a statement starts afresh, behind a line break the
+    grammar first tries to continue the expression before it — with a binary `-`, or with a
+    variable named like a word operator (`a` ⏎ `where into x` is `a where into` and a stray `x`:
+    no parse).  This is what `protect_statement_start` guards against (C07). -/
+example : reads "do {a; where into x\n return 1}" = some "do {\n  a\n  (where into x)\n  return 1\n}" ∧
+    reads "do {a\n where into x\n return 1}" = none ∧
+    reads "do {a; -x\n return 1}" = some "do {\n  a\n  (-x)\n  return 1\n}" ∧
+    reads "do {a\n -x\n return 1}" = some "do {\n  a - x\n  return 1\n}" := by decide +kernel
+/-- `do_block` is compound-atomic with its layout written out: at least one blank or line break
+    between `do` and `{`; blanks (no line break) between `return` and its expression; a
+    separator — `;` or line breaks — behind EVERY statement, exactly one `;`, blanks only in
+    front of it; nothing but layout behind the returned expression; `returns` is a name; postfix
+    and infix operators apply to a block; comments are read and dropped by the conversion -/
+example : reads "do{return 1}" = none ∧ reads "do {return 1}" = some "do {\n  return 1\n}" ∧
+    reads "do\n\n{\n\nreturn 1\n\n}" = some "do {\n  return 1\n}" ∧ reads "do { return\n1 }" = none ∧
+    reads "do { a return 1 }" = none ∧ reads "do { a;return 1 }" = some "do {\n  a\n  return 1\n}" ∧
+    reads "do { a;; return 1 }" = none ∧ reads "do { a\n; return 1 }" = none ∧
+    reads "do { a; }" = none ∧ reads "do { return 1; }" = none ∧
+    reads "do { returns; return 1 }" = some "do {\n  returns\n  return 1\n}" ∧
+    reads "do { return 1 } + 1" = some "do {\n  return 1\n} + 1" ∧
+    reads "do { a // c\n // d\n b\n // e\n return 1 }" = some "do {\n  a\n  b\n  return 1\n}" := by
+  decide +kernel
+/-- outside the fragment: comments, a statement whose leftmost name is a word operator (shielded
+    by parentheses or a prefix operator it is inside) -/
+example : ¬ Frag (.doBlock [.mk ["// c"] xa none] (st one)) ∧
+    ¬ Frag (.doBlock [st xa] (.mk [] one (some "// c"))) ∧
+    ¬ Frag (.doBlock [st (.bin .into (.ident "where") xx)] (st one)) ∧
+    ¬ Frag (.doBlock [st (.call (.ident "via") [xx])] (st one)) ∧
+    Frag (.doBlock [st (.un .not (.ident "via"))] (st (.ident "via"))) ∧
+    Frag (.doBlock [st (.bin .mul (.bin .add (.ident "via") xa) xb)] (st one)) ∧
+    Frag (.doBlock [] (st one)) := by decide +kernel
 end text
 
 end Blots.C10
